@@ -144,10 +144,24 @@ def _local_def_uncached(fn, name):
     return None
 
 
+def _none_alias(e, key):
+    """`x == None` and `x is None` are one operand text as far as a row's bindings go"""
+    if isinstance(e, ast.Compare) and len(e.ops) == 1 and isinstance(e.comparators[0], ast.Constant) \
+            and e.comparators[0].value is None:
+        swap = {ast.Eq: " is None", ast.Is: " == None", ast.NotEq: " is not None", ast.IsNot: " != None"}.get(type(e.ops[0]))
+        if swap:
+            return _norm(e.left) + swap
+    return None
+
+
 def ev(e, env):
     key = _norm(e)
     if key in env:
         return env[key]
+    if isinstance(e, ast.Compare):
+        alt = _none_alias(e, key)
+        if alt is not None and alt in env:
+            return env[alt]
     if isinstance(e, ast.Constant):
         return e.value
     if isinstance(e, (ast.Tuple, ast.List)):
@@ -704,6 +718,14 @@ def outcomes(g, fn_node, env, abort_only, memo=None, watch=None, reached=None, s
             ve.update(dict(loc))
             ve["__fn__"] = fn_node
             visit(n, ve, taint)
+        if watch and n.kind == "return" and n.ast is not None and reached is not None:
+            # a statement named by the row may be the `return <call>` itself
+            if isinstance(watch, dict):
+                for lab_, pred_ in watch.items():
+                    if pred_(n.ast):
+                        reached.add((lab_, taint))
+            elif _norm(n.ast) in watch:
+                reached.add((_norm(n.ast), taint))
         if n is g.exit or n.kind == "return":
             out.add(("pass", taint))
             continue
